@@ -726,21 +726,18 @@ void File::uncompressedFile2ReadWriteQueue() {
         return;
     }
 
-    int32_t tmp = 0;
-    if (obj->calculateObjectSize() > ohb.objectSize) {
-        // we are about to read too much data
-        tmp = ohb.objectSize - obj->calculateObjectSize();
-    }
-
     /* read object */
+    const std::streampos objectBegin = m_uncompressedFile.tellg();
     obj->read(m_uncompressedFile);
     if (!m_uncompressedFile.good()) {
         delete obj;
         throw Exception("File::uncompressedFile2ReadWriteQueue(): Read beyond end of file.");
     }
 
-    if (tmp!=0) {
-        m_uncompressedFile.seekg(tmp);
+    /* an object that declares less than what was read: continue at its declared end */
+    const std::streamoff readTooMuch = m_uncompressedFile.tellg() - (objectBegin + static_cast<std::streamoff>(ohb.objectSize));
+    if (readTooMuch > 0) {
+        m_uncompressedFile.seekg(-readTooMuch, std::ios_base::cur);
     }
 
     /* statistics (before the hand-over: the application may delete obj as soon as it is queued) */
